@@ -270,6 +270,20 @@ pub open spec fn search_rel(kind: Search, v: Seq<char>) -> bool {
     }
 }
 
+// ---- counting the members of a merged search (C08): a member counts once, however often it occurs
+pub open spec fn pat_hit(a: &AhoCorasick, m: Seq<MatchType>, v: Seq<char>, p: int) -> bool {
+    exists|k: int| 0 <= k < ac_hits(a, v).len() && pid(ac_pattern(#[trigger] ac_hits(a, v)[k])) == p && ac_accepts(m, ac_hits(a, v)[k], v)
+}
+// number of members p < n with an accepted occurrence
+pub open spec fn count_pats(a: &AhoCorasick, m: Seq<MatchType>, v: Seq<char>, n: int) -> nat
+    decreases n,
+{
+    if n <= 0 { 0 } else { count_pats(a, m, v, n - 1) + (if pat_hit(a, m, v, n - 1) { 1nat } else { 0nat }) }
+}
+pub open spec fn ac_count(a: &AhoCorasick, m: Seq<MatchType>, v: Seq<char>) -> nat { count_pats(a, m, v, m.len() as int) }
+// RegexSet: the number of member patterns that match (SetMatches yields each matching index once)
+pub open spec fn rs_count(s: &RegexSet, v: Seq<char>) -> nat { regexset_hits(s, v).len() }
+
 // the text a scalar is searched as when the key carries the str() cast
 pub open spec fn scalar_text(v: V) -> Option<Seq<char>> {
     match v {
@@ -343,8 +357,82 @@ pub open spec fn permitted(e: Expression, ids: Ids, d: DocM) -> bool {
 // (temporarily uninterpreted pieces: the Matrix forms and the merged-search leaves of all()/of())
 pub uninterp spec fn sem_matrix(cols: Vec<String>, rows: Vec<Vec<Option<Expression>>>, ids: Ids, d: DocM) -> SolverResult;
 pub uninterp spec fn sem_nested_array_matrix(cols: Vec<String>, rows: Vec<Vec<Option<Expression>>>, ids: Ids, a: ArrM) -> SolverResult;
-pub uninterp spec fn sem_all_leaf(e: Expression, ids: Ids, d: DocM) -> SolverResult;
-pub uninterp spec fn sem_of_leaf(e: Expression, n: u64, ids: Ids, d: DocM) -> SolverResult;
+pub uninterp spec fn sem_matrix_all(cols: Vec<String>, rows: Vec<Vec<Option<Expression>>>, ids: Ids, d: DocM) -> SolverResult;
+pub uninterp spec fn sem_matrix_of(cols: Vec<String>, rows: Vec<Vec<Option<Expression>>>, n: u64, ids: Ids, d: DocM) -> SolverResult;
+
+// members of a merged search on one field value: how many of them match `x`
+pub open spec fn member_count(kind: Search, x: Seq<char>) -> Option<(nat, nat)> {   // (matching, total)
+    match kind {
+        Search::AhoCorasick(a, m, _) => Some((ac_count(&*a, m@, x), m@.len())),
+        Search::RegexSet(s, _) => Some((rs_count(&s, x), regexset_patterns(&s).len())),
+        _ => None,
+    }
+}
+
+// one array element: it has a searchable text and every member / at least n members match it
+pub open spec fn elem_all(kind: Search, e: V, cast: bool) -> bool {
+    elem_text(e, cast) is Some && member_count(kind, elem_text(e, cast)->Some_0)->Some_0.0 == member_count(kind, elem_text(e, cast)->Some_0)->Some_0.1
+}
+pub open spec fn elem_n(kind: Search, e: V, cast: bool, n: u64) -> bool {
+    elem_text(e, cast) is Some && member_count(kind, elem_text(e, cast)->Some_0)->Some_0.0 >= n
+}
+// all(k) over a merged search: every member matches the value (for an array: some element is matched by all)
+pub open spec fn all_members_array(kind: Search, a: ArrM, cast: bool) -> bool {
+    exists|k: int| 0 <= k < arr_elems(a).len() && #[trigger] elem_all(kind, arr_elems(a)[k], cast)
+}
+pub open spec fn n_members_array(kind: Search, a: ArrM, cast: bool, n: u64) -> bool {
+    exists|k: int| 0 <= k < arr_elems(a).len() && #[trigger] elem_n(kind, arr_elems(a)[k], cast, n)
+}
+
+pub open spec fn sem_all_merged(kind: Search, f: Seq<char>, cast: bool, d: DocM) -> SolverResult {
+    match dm_find(d, f) {
+        None => SolverResult::Missing,
+        Some(V::Str(x)) => b3(member_count(kind, x)->Some_0.0 == member_count(kind, x)->Some_0.1),
+        Some(V::Array(a)) => b3(all_members_array(kind, a, cast)),
+        Some(v) => if cast && scalar_text(v) is Some {
+            b3(member_count(kind, scalar_text(v)->Some_0)->Some_0.0 == member_count(kind, scalar_text(v)->Some_0)->Some_0.1)
+        } else { SolverResult::Missing },
+    }
+}
+
+// of(k, n>=1) over a merged search: at least n distinct members match; a value that matches fewer is False
+pub open spec fn sem_of_merged(kind: Search, f: Seq<char>, cast: bool, n: u64, d: DocM) -> SolverResult {
+    match dm_find(d, f) {
+        None => SolverResult::Missing,
+        Some(V::Str(x)) => b3(member_count(kind, x)->Some_0.0 >= n),
+        Some(V::Array(a)) => b3(n_members_array(kind, a, cast, n)),
+        Some(v) => if cast && scalar_text(v) is Some { b3(member_count(kind, scalar_text(v)->Some_0)->Some_0.0 >= n) } else { SolverResult::Missing },
+    }
+}
+
+pub open spec fn is_merged(kind: Search) -> bool { kind is AhoCorasick || kind is RegexSet }
+
+// all(..) applied to something that is not a group (after looking through an identifier)
+pub open spec fn sem_all_leaf(t: Expression, ids: Ids, d: DocM) -> SolverResult
+    decreases lvl(t), t, 2int,
+{
+    match t {
+        Expression::Search(kind, f, cast) => if is_merged(kind) { sem_all_merged(kind, f@, cast, d) } else { sem3(t, ids, d) },
+        Expression::Matrix(cols, rows) => sem_matrix_all(cols, rows, ids, d),
+        _ => sem3(t, ids, d),
+    }
+}
+
+// of(.., n) applied to something that is not a group: of(0) negates (missing stays missing)
+pub open spec fn sem_of_leaf(t: Expression, n: u64, ids: Ids, d: DocM) -> SolverResult
+    decreases lvl(t), t, 2int,
+{
+    if n == 0 {
+        match sem3(t, ids, d) { SolverResult::True => SolverResult::False, SolverResult::False => SolverResult::True, SolverResult::Missing => SolverResult::Missing }
+    } else {
+        match t {
+            // a single predicate is a list of one member: of(.., n) over it follows the same table (never true for n >= 2)
+            Expression::Search(kind, f, cast) => if is_merged(kind) { sem_of_merged(kind, f@, cast, n, d) } else { of3(seq![sem3(t, ids, d)], n) },
+            Expression::Matrix(cols, rows) => sem_matrix_of(cols, rows, n, ids, d),
+            _ => of3(seq![sem3(t, ids, d)], n),
+        }
+    }
+}
 
 // results of the elements of a group, in written order
 pub open spec fn sems(g: Vec<Expression>, ids: Ids, d: DocM, parent: Expression) -> Seq<SolverResult>
